@@ -31,6 +31,18 @@ CHECKS = {
  'C08': dict(cat='fault_enumeration', tech='LD_PRELOAD fault injection (EIO/ENOSPC at the k-th pread/pwrite of a data or parity file) during sync and scrub at several io-cache depths, stripe state read back through the Lean content decoder; Lean bookkeeping model with theorems for reads and a machine-checked counter-example for asynchronous parity writes',
    text='Every injected fault that fired is judged: non-zero exit, the stripe of the failing offset is not (all BLK and not bad) in the content written afterwards, and the follow-up sync / fix -e + scrub -p bad re-establishes the C06 invariant. Lean: io_error_never_protects_reads, other_stripes_unaffected, async_writer_sound_when_collected (specification of a sound writer path) and c08_counter_write (the pinned behaviour).',
    note='Known finding C08-write (parity pwrite errors are not attributed to their stripe) is reported as KNOWN-FINDING; repairing it needs failing positions to travel back through the writer queue (io.c/io.h/sync.c), judged not small enough for a fix: commit.', ref='6 C08, 7'),
+ 'C07': dict(cat='fault_enumeration', tech='process death (SIGKILL before/after/in the middle of the k-th state-changing libc call) and SIGINT injected by an LD_PRELOAD shim into sync and fix; Lean theorems for single-loss recoverability after a kill of an adds-only sync, region discipline of sync operations, content-save atomicity (C09) and invariant preservation under parity-only writes (C06)',
+   text='Every kill/signal point that fired is judged: data directories byte-identical, a content file loads (status), for adds-only change sets previously synced files are recoverable from one lost device after a kill and up to N after a graceful stop, re-running sync succeeds (also after deleted files came back with the same bytes) and re-establishes the C06 invariant and a clean check; an interrupted fix re-run ends as the uninterrupted fix. Lean: kill_single_loss_recoverable (any level old or new independently, any field), sync_ops_never_touch_data, Save.save_atomic, C06.inv_step for parityOnly.',
+   note='Known finding C07-shrink (parity truncated before the content save) is reported as KNOWN-FINDING (directed replay on every run). Page cache survives a process kill: power-loss reordering is only covered for the content save (C09).', ref='6 C07, 7'),
+ 'C15': dict(cat='proof', tech='Lean 4 executable model of the scrub plan (limit computation over sorted times, block_is_enabled with its running counter) and book-keeping, with theorems; compared with the binary under a frozen clock on synthesized per-stripe info (Lean decode -> edit -> Lean encode)',
+   text='Theorems: bad stripes always, unused never, full = all used, new = just-synced, bad plan = only bad; percentage plans: selected non-bad stripes are not younger than the time limit (auto_age), oldest first (auto_oldest_first), the exactly-at-limit counter never exceeds lastlimit, timelimit <= age limit, countlimit <= requested share; books: refresh and clear only on verified stripes, bad only on silent/io errors, unsynced differences untouched. Tie: count_limit/time_limit/last_limit tags and the info of every stripe after scrub must equal the model for plans full/new/bad/percentage x age/default, with silent damage, files changed since the last sync and stripes left pending by a partial sync.',
+   note='"Repeated default scrubs eventually cover every stripe" is not proved (follows from oldest-first + bound but is not stated as a theorem); the number of non-bad stripes strictly older than the limit being <= countlimit - lastlimit relies on the sortedness of the time list (checked by correspondence, not proved).', ref='6 C15'),
+ 'C17': dict(cat='proof', tech='Lean 4 model of parity_split_find / parity_handle_fill / parity_chsize with theorems (lookup is the inverse of concatenation, total, injective, no stripe straddles, growth bounds, sizes add up, fixed splits keep their size); call-by-call comparison with the real parity_chsize on real files; twin arrays split vs unsplit',
+   text='Theorems: find_spec/find_total/find_injective/find_no_straddle for every size vector, fill never exceeds target or limit and never shrinks, successful chsize makes recorded sizes add up to the request, a split followed by a used split keeps its size. Tie: leaf harness linked with the binary objects drives parity_create/parity_chsize over growth, shrink and re-open sequences with aligned / non-aligned / mid-growth limits and compares return code, recorded sizes and file sizes with the Lean model (incl. the 32-bit pseudo-random per-split test limits); twin arrays with identical history: concatenated splits byte-identical to single-file parity after every sync and after fix of a lost split.',
+   note='The file system is abstracted as a per-split size limit; exact value of fill (= min(target, aligned limit)) is established by correspondence, the theorems give bounds; C01/C06 on split parity are exercised by the other checks drawing split layouts.', ref='6 C17'),
+ 'C18': dict(cat='proof', tech='Lean 4 model of fnmatch (flags 0 / FNM_PATHNAME) and of the include/exclude rule machinery with theorems; compared with the fnmatch actually linked (libc) and the vendored one, with filter_path/filter_subdir/filter_emptydir of the binary, and end-to-end with list and fix -f',
+   text='Theorems: first match decides, a non-matching rule falls through with the default flipped, with no match a file is excluded iff the last rule is an include, directories are entered by default, and in pathname mode a pattern without a slash never matches a string containing one (wildcard_never_crosses_slash, proved through bracket parsing). Tie: ~12k (pattern, string) pairs incl. all short combinations, 6k rule lists x paths x {file, dir descent, empty dir} incl. malformed rules, arrays whose configuration rules decide what list shows, fix -f selection.',
+   note='Character classes and locale collation are outside model and generators; -d/-m/-e selection is exercised in C05; the vendored cmdline/fnmatch.c differs from libc on a few dozen corner inputs (counted in the evidence) and is not what this build links.', ref='6 C18'),
 }
 
 NOT_YET = {}
